@@ -651,16 +651,11 @@ func (h *hydra) SubscribeToSwampEvents(clientID uuid.UUID, swampName name.Name, 
 		}
 	}()
 
-	if subscribers, ok := h.eventSubscribers.Load(canonicalForm); ok {
-		// Always overwrite the subscriber, since the channel may have changed as well.
-		subscribers.(*sync.Map).Store(clientID.String(), subscriberEventCallbackFunction)
-		return nil
-	}
-
-	// there is no subscribers to this swamp yet
-	subscribers := &sync.Map{}
-	subscribers.Store(clientID.String(), subscriberEventCallbackFunction)
-	h.eventSubscribers.Store(canonicalForm, subscribers)
+	// LoadOrStore: two clients subscribing to the same swamp at the same moment must end up in the
+	// same subscriber map (a Load followed by a Store lets the second map replace the first one).
+	subscribers, _ := h.eventSubscribers.LoadOrStore(canonicalForm, &sync.Map{})
+	// Always overwrite the subscriber, since the channel may have changed as well.
+	subscribers.(*sync.Map).Store(clientID.String(), subscriberEventCallbackFunction)
 
 	return nil
 
